@@ -64,6 +64,20 @@ def hits(prof):
     return out
 
 
+def rng_states(ds, acc=None):
+    """repr of the state of every numpy RandomState found in the pipeline."""
+    acc = [] if acc is None else acc
+    rng = getattr(ds, 'rng', None)
+    if rng is not None and hasattr(rng, 'get_state'):
+        st = rng.get_state()
+        acc.append((st[0], st[1].tolist(), st[2]))
+    if hasattr(ds, 'input_dataset'):
+        rng_states(ds.input_dataset, acc)
+    for s_ in getattr(ds, 'input_datasets', ()):
+        rng_states(s_, acc)
+    return acc
+
+
 def graph_ids(ds, acc=None):
     """(id, class, id of the inputs) of every node reachable from ds."""
     acc = [] if acc is None else acc
@@ -89,24 +103,43 @@ def record(rec):
             out['prof'] = plain
             return out
         before = graph_ids(ds)
-        prof, pds = _obs(lambda: ProfilingDataset(ds))
+        rng_before = rng_states(ds)
+        # the wrapped twin is built exactly like the plain one (equal seeds)
+        twin = build_logged(prog, [])
+        prof, pds = _obs(lambda: ProfilingDataset(twin))
+        # wrapping must not draw from the pipeline's generators
+        fresh = build_logged(prog, [])
+        r0 = rng_states(fresh)
+        try:
+            ProfilingDataset(fresh)
+        except BaseException:
+            pass
+        if rng_states(fresh) != r0:
+            out['untouched'] = False
         out['prof'] = prof
         if pds is None:
             return out
         after = graph_ids(ds)
-        plain_again, _ = _obs(lambda: ds)
-        out['untouched'] = before == after and plain_again == plain
+        has_rng = bool(rng_before)
+        plain_again, _ = (_obs(lambda: ds) if not has_rng else (plain, None))
+        out['untouched'] = out['untouched'] and before == after and plain_again == plain
         # hit counters: a fresh wrapper per measurement
         try:
             p = ProfilingDataset(build_logged(prog, []))
-            list(p)
+            try:
+                list(p)
+            except Exception:
+                pass                    # an injected failure: the counters still tell
             out['full'] = hits(p)
             for k in range(0, n + 1):
                 p = ProfilingDataset(build_logged(prog, []))
-                it = iter(p)
-                list(itertools.islice(it, k))
-                if hasattr(it, 'close'):
-                    it.close()
+                try:
+                    it = iter(p)
+                    list(itertools.islice(it, k))
+                    if hasattr(it, 'close'):
+                        it.close()
+                except Exception:
+                    pass
                 out['takes'].append({'k': k, 'hits': hits(p)})
             if idx:
                 for i in range(n):
@@ -133,7 +166,7 @@ def run(prop, tier):
         info = []
         for n, d, budget in TIERS[tier]:
             wd = tlc.prepare()
-            r = tlc.run('Demand.tla', 'MC.cfg', workdir=wd, cfg_text=CFG.format(n=n, d=d), timeout=1800)
+            r = tlc.run('Demand.tla', 'MC.cfg', workdir=wd, cfg_text=CFG.format(n=n, d=d, shuffle='TRUE'), timeout=1800)
             if r['rc'] != 0 or r['errors']:
                 raise tlc.TlcError('Demand.tla: ' + '\n'.join(r['errors'][:20]))
             res.add_tlc(r['stats'])
